@@ -20,8 +20,15 @@ def run_batch(cls, mname, x0, k, bound, nsamp, rng, backend, tmpdir):
     kw = dict(samples=nsamp, dt=rng.choice([10.0, 20.0]), bounds=[-bound, bound], tracemanager=tm, trace_every=rng.choice([1, 3]), max_steps=1500)
     if cls == "es":
         kw["spawn_stack"] = rng.choice([[2], [3], [2, 2]]); kw["quadrature"] = rng.choice(["gl", "midpoint", "trapezoid"]); kw["samples"] = 1
-    b = BatchedTraj(model, TrajGenConst([x0], [k], 0, seed=rng.randrange(2 ** 31)), C, **kw)
-    return b.compute()
+    from mudslide.batch import TrajGenNormal
+    if cls != "es" and rng.random() < 0.4:
+        gen = TrajGenNormal(np.array([x0]), np.array([k]), 0, sigma=rng.choice([20.0 / k, 1.0 / k, 0.7 / k]), seed=rng.randrange(2 ** 31), seed_traj=rng.randrange(2 ** 31))   # some draws are skipped
+    else:
+        gen = TrajGenConst([x0], [k], 0, seed=rng.randrange(2 ** 31))
+    b = BatchedTraj(model, gen, C, **kw)
+    r = b.compute()
+    r._requested = kw["samples"]
+    return r
 
 
 def finals(results, backend, tmpdir):
@@ -95,7 +102,7 @@ def run(tier, seed):
         if np.max(np.abs(out - ref)) > 1e-12:
             bad.append(dict(failed="table equals the weight-normalised frequencies of the final states of the traces", case=info, outcome=out.tolist(), reference=ref.tolist()))
         if not np.array_equal(out, out_attr):
-            bad.append(dict(failed="outcomes attribute equals outcome()", case=info))
+            bad.append(dict(failed="the outcome table stored by the batch (outcomes) equals the weight-normalised table of its traces (stored sum %r)" % float(np.sum(out_attr)), case=info))
         refc = np.zeros((nst, 2))
         for w, a, left, _ in fin:
             refc[a, 0 if left else 1] += 1.0
@@ -111,6 +118,7 @@ def run(tier, seed):
         out2 = np.array(r.outcome()); r.traces = keep
         if np.max(np.abs(out2 - out)) > 1e-13:
             bad.append(dict(failed="table unchanged by reordering trajectories", case=info))
+        if len(fin) != getattr(r, "_requested", len(fin)): res.count("generator-skipped-samples")
         uneq = len(set(round(w, 14) for w, _, _, _ in fin)) > 1
         res.count("class/" + cls); res.count("backend/" + backend); res.count("weights/" + ("unequal" if uneq else "equal")); res.count("ntraces", len(fin))
         res.case(("b", cls, mname, k, nsamp, backend, tuple(fin)), True, dict(info, outcome=out.tolist()))
@@ -129,6 +137,16 @@ def run(tier, seed):
             vals = [float(x) for x in row[1:]]
             if len(vals) != 2 * nst or abs(sum(vals) - 1.0) > 2e-6 * len(vals) or any(v < 0 or v > 1 for v in vals):
                 bad.append(dict(failed="averaged CLI row holds 2*nstates normalised frequencies", case=dict(args=args, row=row)))
+    # a multi-momentum CLI run: each averaged row must be the table of that momentum's own batch
+    args2 = ["-m", "simple", "-n", "2", "-k", "10", "20", "-s", "3", "-z", "11", "-x", "-4", "-b", "4.5"]
+    buf = io.StringIO(); mm.main(args2, file=buf)
+    rows2 = [l.split() for l in buf.getvalue().splitlines() if l and not l.startswith("#")]
+    for kk, row in zip(("10", "20"), rows2):
+        b1 = io.StringIO(); mm.main(["-m", "simple", "-n", "1", "-k", kk, kk, "-s", "3", "-z", "11", "-x", "-4", "-b", "4.5"], file=b1)
+        r1 = [l.split() for l in b1.getvalue().splitlines() if l and not l.startswith("#")][0]
+        res.count("cli-multi-momentum-rows")
+        if [float(a) for a in row] != [float(a) for a in r1]:
+            bad.append(dict(failed="each averaged CLI row is the table of that momentum's own trajectories (row %r vs single-momentum run %r)" % (row, r1), case=dict(args=args2)))
     if known_yaml_summarize:
         kf = load_known_findings("C17")
         if any(e.get("key") == "summarize-yaml-hops" for e in kf):
